@@ -19,9 +19,7 @@ pub proof fn lemma_compose_def_is_exists<Ptr: DDNNFPtr>(f: Ptr, lbl: VarLabel, g
 //%% @pub
 //%% end
 
-//%% extract src/plan/bottom_up_plan.rs :: - :: enum BottomUpPlan
-//%% @pub
-//%% end
+//%% include prelude/plansem.rs
 
 //%% include trusted/literal.rs
 //%% include trusted/cnf_stub.rs
@@ -190,30 +188,5 @@ pub open spec fn expr_ok(b: spec_fn(VarLabel) -> bool, e: LogicalExpr) -> bool
         LogicalExpr::Not(a) => expr_ok(b, *a),
         LogicalExpr::And(a, c) | LogicalExpr::Or(a, c) | LogicalExpr::Iff(a, c) | LogicalExpr::Xor(a, c) => expr_ok(b, *a) && expr_ok(b, *c),
         LogicalExpr::Ite { guard, thn, els } => expr_ok(b, *guard) && expr_ok(b, *thn) && expr_ok(b, *els),
-    }
-}
-pub open spec fn plan_sem(e: BottomUpPlan, env: Env) -> bool
-    decreases e
-{
-    match e {
-        BottomUpPlan::And(a, b) => plan_sem(*a, env) && plan_sem(*b, env),
-        BottomUpPlan::Or(a, b) => plan_sem(*a, env) || plan_sem(*b, env),
-        BottomUpPlan::Iff(a, b) => plan_sem(*a, env) == plan_sem(*b, env),
-        BottomUpPlan::Ite(f, g, h) => if plan_sem(*f, env) { plan_sem(*g, env) } else { plan_sem(*h, env) },
-        BottomUpPlan::Not(a) => !plan_sem(*a, env),
-        BottomUpPlan::ConstTrue => true,
-        BottomUpPlan::ConstFalse => false,
-        BottomUpPlan::Literal(v, p) => env(v.0) == p,
-    }
-}
-pub open spec fn plan_ok(b: spec_fn(VarLabel) -> bool, e: BottomUpPlan) -> bool
-    decreases e
-{
-    match e {
-        BottomUpPlan::And(a, c) | BottomUpPlan::Or(a, c) | BottomUpPlan::Iff(a, c) => plan_ok(b, *a) && plan_ok(b, *c),
-        BottomUpPlan::Ite(f, g, h) => plan_ok(b, *f) && plan_ok(b, *g) && plan_ok(b, *h),
-        BottomUpPlan::Not(a) => plan_ok(b, *a),
-        BottomUpPlan::ConstTrue | BottomUpPlan::ConstFalse => true,
-        BottomUpPlan::Literal(v, p) => b(v),
     }
 }
